@@ -343,6 +343,13 @@ def ob_rm3_removed_check(ctx, tier):
             if not (isinstance(u.args[0], Ref) and u.args[0].obj is pe.args[0].obj):
                 failing.append("unregister_of_another_dispatcher")
                 cex = cex or fmt_path(p)
+            # the removed source's unregistration failed: its lifecycle entry (dropped by the dispatcher only on success)
+            # must be dropped by the loop, or the next dispatch meets an entry that points at a vacant slot
+            if isinstance(u.ret, Enum) and entails(ctx, p.pc, dz(u.ret.disc) == 1)[0]:
+                lu = [e for e in p.trace[u.idx + 1:] if is_call(e, r"AdditionalLifecycleEventsSet::unregister$")]
+                if not lu:
+                    failing.append("removed_source_stays_in_the_lifecycle_set_when_unregister_fails")
+                    cex = cex or fmt_path(p)
         if len(unregs) > 1:
             failing.append("unregistered_more_than_once")
             cex = cex or fmt_path(p)
@@ -547,6 +554,13 @@ def ob_handle_remove(ctx, tier):
                 c.fail("remove_unregisters_another_dispatcher", p)
             if "a2" not in repr(un[0].args[3]):
                 c.fail("remove_unregister_not_with_callers_token", p)
+            # a removed source is never left in the lifecycle set (whose entries must resolve to occupied slots: dispatch
+            # treats anything else as unreachable): when its unregistration FAILED -- the dispatcher drops the entry only
+            # on success -- the entry is dropped here
+            if p.status == "return" and isinstance(un[0].ret, Enum) and entails(ctx, p.pc, dz(un[0].ret.disc) == 1)[0]:
+                lu = [e for e in calls(p, r"AdditionalLifecycleEventsSet::unregister$") if e.idx > un[0].idx]
+                if not lu or "a2" not in repr(lu[0].args[1]):
+                    c.fail("removed_source_stays_in_the_lifecycle_set_when_unregister_fails", p)
             # removal is final whatever unregister answers: when remove returns, the slot is vacant (so the token is dead,
             # the loop's reference is released and the slot reusable), also when the poller call failed
             if p.status == "return":
